@@ -52,6 +52,10 @@ def run(ctx):
         foc = [p for p in foc if sum(1 for t in p["prog"] if t["t"] == "acc") >= 2]
         for p in foc:       # input vectors "around the size" of a 4 GiB memory that are not 32-bit addresses cannot be passed
             p["runs"] = [r for r in p["runs"] if all(0 <= r["inp"][u] * ppu * 65536 + r["inp"][d] < 1 << 32 for u, d in (("v0u", "v0d"), ("v1u", "v1d")))]
+        if scale == "x1":       # a memory that starts with 0 pages (own / imported / shared): touch, grow, access
+            files["empty.cfg"] = cfg(4 if q else 5, 1, "AccSame", "S0", topu, other="EmptyToks")
+            emp = ctx.tlc("MemAccessMC", "empty.cfg", extra_files=files, design=False, tag="gen:memory-that-starts-empty")["emitted"]
+            foc += [p for p in emp if any(t["t"] == "acc" for t in p["prog"])]
         ctx.extra.setdefault("focus_programs", {})[scale] = len(foc)
         got += sim + foc
         for k, p in enumerate(got):
